@@ -32,19 +32,19 @@ ENGINES = {
 
 CHECKS = {
  "C18": dict(engine="promsim",
-   text="schedule-dependent clauses of C18: seeded search over interleavings of measurements on counters, up-down counters, gauges and histograms (names from a fixed edge-case list, exporter options swarm-drawn, instruments and scopes appearing between scrapes) with concurrent Registry.Gather calls through the real client_golang registry; oracle: no panic in any task or Gather worker, Gather returns no error, every scraped value within its may/must window by bit-decoding and non-decreasing per scraper, histogram count and buckets consistent, one series per instrument, target/scope info as configured, exact totals at quiescence, no exporter error for valid instruments",
+   text="schedule-dependent clauses of C18: seeded search over interleavings of measurements on counters, up-down counters, gauges and histograms (names from a fixed edge-case list, exporter options swarm-drawn, instruments and scopes appearing between scrapes) with concurrent Registry.Gather calls through the real client_golang registry; oracle: no panic in any task or Gather worker, Gather returns no error, every scraped value within its may/must window by bit-decoding and non-decreasing per scraper, histogram count and buckets consistent, one series per instrument, target/scope info as configured, exact totals at quiescence, no exporter error for valid instruments; exporter handed to its provider late in a quarter of the runs (earlier scrapes empty, target_info carries the provider's resource); race freedom by the happens-before oracle of the race-detector build",
    ref="DESIGN.md §3 C18",
-   note="the name-translation and label-sanitisation clauses over all names/units/options are a pure function of the instrument description and are NOT decided by this check (only a fixed list of 24 edge-case names is exercised, which is how the 'total' panic was found)"),
+   note="the name-translation and label-sanitisation clauses over all names/units/options are a pure function of the instrument description and are NOT decided by this check (only a fixed list of 24 edge-case names is exercised, which is how the 'total' panic was found). A quarter of the workers run a race-detector build of the same engine in which the simulator's own synchronisation is hidden from the detector, so that accesses the schedule merely serialised are reported as the data race they are (DESIGN.md §2.11)"),
  "C14": dict(engine="otlpretry",
-   text="seeded search over collector response sequences (every HTTP status of the table with and without Retry-After, every gRPC code with and without RetryInfo, partial successes, slow responses, temporary dial errors), retry configurations (disabled, zero/short/long elapsed limits), exporter and context timeouts and Shutdown instants, for each of the six OTLP exporters talking to a real in-bubble net/http or gRPC server on exact simulated time; reference-policy oracle over the collector's attempt log: retry only after retryable outcomes, identical payloads, server-supplied delay honoured, stop at first success / non-retryable outcome and report it, no attempt after the deadline or after Shutdown returned, bounded return time, give up only when the budget requires it, partial success reported to the error handler",
+   text="seeded search over collector response sequences (every HTTP status of the table with and without Retry-After, every gRPC code with and without RetryInfo, partial successes, slow responses, temporary dial errors), retry configurations (disabled, zero/short/long elapsed limits), exporter and context timeouts and Shutdown instants, for each of the six OTLP exporters talking to a real in-bubble net/http or gRPC server on exact simulated time; reference-policy oracle over the collector's attempt log: retry only after retryable outcomes, identical payloads, server-supplied delay honoured, stop at first success / non-retryable outcome and report it, no attempt after the deadline or after Shutdown returned (for the trace exporters: after Shutdown cancelled the exports under way, as they document), bounded return time, give up only when the budget requires it, partial success reported to the error handler",
    ref="DESIGN.md §3 C14",
-   note="goroutines of net/http and gRPC are not scheduled by the simulator; one export call in flight at a time; HTTP transport faults are temporary dial errors and per-attempt client timeouts only; known findings C14-K1 (Retry-After as nanoseconds) and C14-K2 (otlploghttp Shutdown does not interrupt a retrying export) are reported as KNOWN-FINDING"),
+   note="goroutines of net/http and gRPC are not scheduled by the simulator; one or two export calls in flight; HTTP transport faults are temporary dial errors and per-attempt client timeouts only; known findings C14-K1 (Retry-After as nanoseconds) and C14-K2 (otlploghttp Shutdown does not interrupt a retrying export) are reported as KNOWN-FINDING"),
  "C16": dict(engine="globalsim",
-   text="seeded search over interleavings of goroutines that obtain tracers and meters from the global API, create instruments (same and different names, every synchronous kind plus observable counters), record bit-coded measurements, start/end spans, register and unregister callbacks, while another goroutine calls SetMeterProvider / SetTracerProvider / SetTextMapPropagator in any order; oracle: may/must windows around installation for measurements and spans, one probe measurement through every instrument object ever handed out, callbacks invoked exactly once per SDK collection unless unregistered, no panic, no deadlock (cycle in the shadow lock graph) and no call that never returns",
+   text="seeded search over interleavings of goroutines that obtain tracers and meters from the global API, create instruments (same and different names, every synchronous kind plus observable counters), record bit-coded measurements, start/end spans, register and unregister callbacks, while another goroutine calls SetMeterProvider / SetTracerProvider / SetTextMapPropagator in any order; oracle: may/must windows around installation for measurements and spans, one probe measurement through every instrument object ever handed out, callbacks invoked exactly once per SDK collection unless unregistered, tracer objects obtained before / during / after installation all connected, no panic, no deadlock (cycle in the shadow lock graph), no call that never returns, no data race (happens-before oracle of the race-detector build)",
    ref="DESIGN.md §3 C16",
-   note="process globals are put back between runs by an overlay-added reset function (build overlay only); 'no data race' is decided in its consequence form only"),
+   note="process globals are put back between runs by an overlay-added reset function (build overlay only). A quarter of the workers run a race-detector build of the same engine in which the simulator's own synchronisation is hidden from the detector, so that accesses the schedule merely serialised are reported as the data race they are (DESIGN.md §2.11)"),
  "C15": dict(engine="lifecycle",
-   text="seeded search over sequences and interleavings of Register/Unregister (of registered, unregistered and never-registered processors), Tracer/Meter/Logger creation, Start/End, Add, Emit, Collect, ForceFlush and Shutdown (repeated, concurrent, with background / cancelled / expiring contexts) on the three SDK providers with the stock processors, readers and exporters including nil exporters; oracle: may/must membership windows for span delivery, shutdown at most once ever and exactly once by the time Unregister / provider Shutdown returned nil, no-op tracers and nothing written by the stock exporters after Shutdown, no panic (including panics in SDK-spawned goroutines), no deadlock, no call that never returns",
+   text="seeded search over sequences and interleavings of Register/Unregister (of registered, unregistered and never-registered processors), Tracer/Meter/Logger creation, Start/End, Add, Emit, Collect, ForceFlush and Shutdown (repeated, concurrent, with background / cancelled / expiring contexts) on the three SDK providers with the stock processors, readers and exporters including nil exporters; oracle: may/must membership windows for span delivery, shutdown at most once ever and exactly once by the time Unregister / provider Shutdown returned nil, everything registered has been asked to shut down once a provider Shutdown has returned (also with an error), no-op tracers and nothing written by the stock exporters after Shutdown, no panic (including panics in SDK-spawned goroutines), no deadlock, no call that never returns",
    ref="DESIGN.md §3 C15",
    note="stock exporters run for real (stdout exporters write to a stamped in-memory writer); known findings C15-K1/K2 are reported as KNOWN-FINDING"),
  "C02": dict(engine="metricsim",
@@ -54,15 +54,15 @@ CHECKS = {
  "C08": dict(engine="metricsim",
    text="same simulated histories as C02 with joint collection points (delta and cumulative reader collected back to back while no measurement is in flight, recorders still alive): cumulative sums / histogram count, sum, buckets, min, max equal the fold of all deltas so far; delta intervals adjacent and non-overlapping across zero and long simulated gaps, cumulative start fixed; asynchronous instruments report exactly the observed sets with delta = observed - previously observed while callbacks are registered and unregistered concurrently; gauges report the last value of the cycle",
    ref="DESIGN.md §3 C08",
-   note="joint points are produced by a harness gate (a legal schedule restriction); exponential histograms are not part of the workload; with a cardinality limit only totals are compared (identities may legitimately differ between the readers)"),
+   note="joint points are produced by a harness gate (a legal schedule restriction); float64 exponential histograms are compared after rescaling to the coarsest scale; with a cardinality limit synchronous instruments are compared by totals (identities may legitimately differ between the readers) and asynchronous ones exactly after the redirect-to-overflow rule; collections with expiring / cancelled contexts are part of the workload; known finding C08-K1 (observations of an abandoned collection leak into the next one) is reported as KNOWN-FINDING"),
  "C12": dict(engine="metricsim",
-   text="same simulated histories with the experimental cardinality limit really set (L in 1,2,3,5) and views (attribute filter, rename, drop, two views on one instrument): per collection at most L sets and at most one overflow set, overflow only when more than L-1 sets were offered, every measurement bit under its own filtered set or under overflow and exactly once, placement rule for the first L-1 sets checked on the cumulative reader with may/must windows, dropped streams report nothing, every view stream receives every measurement",
+   text="same simulated histories with the experimental cardinality limit really set (L in 1,2,3,5) and views (attribute filter, rename, drop, drop in front of a keeping view, two and three views on one instrument): per collection at most L sets and at most one overflow set, overflow only when more than L-1 sets were offered, every measurement bit under its own filtered set or under overflow and exactly once, placement rule for the first L-1 sets checked on the cumulative reader with may/must windows, dropped streams report nothing, every view stream receives every measurement exactly once; asynchronous instruments under a limit report the observed values after the redirect-to-overflow rule",
    ref="DESIGN.md §3 C12",
    note="schedule-dependent content only: the limiter's check-then-insert under concurrent recorders and collections; the full input space of views/filters is not enumerated"),
  "C10": dict(engine="spanlin",
-   text="seeded search over interleavings of End/SetAttributes/AddEvent/AddLink/SetStatus/SetName/RecordError/IsRecording/child Start on shared spans, with Go execution tracing really on and off; recorded invoke/return histories are checked for linearizability with porcupine against a sequential span model, plus direct checks (exactly one OnEnd per processor, immutable snapshot, single end time, not recording after End, no panic/deadlock)",
+   text="seeded search over interleavings of End/SetAttributes/AddEvent/AddLink/SetStatus/SetName/RecordError/IsRecording/child Start on shared spans, with Go execution tracing really on and off; recorded invoke/return histories are checked for linearizability with porcupine against a sequential span model, plus direct checks (exactly one OnEnd per processor, immutable snapshot, single end time, not recording after End, no panic/deadlock), plus the happens-before data-race oracle of the race-detector build",
    ref="DESIGN.md §3 C10",
-   note="sequentially consistent interleavings at statement granularity (read-modify-write statements on shared memory are additionally split); 'no data race' is decided in its consequence form only (DESIGN.md §2.8); the model covers default span limits"),
+   note="sequentially consistent interleavings at statement granularity (read-modify-write statements on shared memory are additionally split); the model covers default span limits. A quarter of the workers run a race-detector build of the same engine in which the simulator's own synchronisation is hidden from the detector, so that accesses the schedule merely serialised are reported as the data race they are (DESIGN.md §2.11); the detector's verdict on one schedule can be hidden by runtime-made happens-before edges (sync.Pool in race builds), so a data-race replay is repeated up to six times"),
  "C01": dict(engine="bsp",
    text="seeded search over schedules, time advances, configurations and exporter faults of the real batch span processor under a deterministic scheduler; history oracle for exactly-once, batch size, exporter exclusivity, flush visibility, drop accounting, export-after-shutdown and bounded liveness",
    ref="DESIGN.md §3 C01",
@@ -88,7 +88,7 @@ m = {
  "engines": [{"name": n, "path": "engines/"+n, "serves_properties": p, "kind_free_text": "deterministic simulation: "+k} for n,(p,k) in ENGINES.items()],
  "checks": [],
  "not_applicable": [],
- "notes": "see DESIGN.md; ./check selftest-determinism and selftest/mutants.sh are the simulator's own self-tests",
+ "notes": "see DESIGN.md; ./check selftest-determinism and selftest/mutants.sh are the simulator's own self-tests; the race-detector builds of spanlin, globalsim and promsim are linked with -ldflags=-checklinkname=0 (they enter synctest bubbles through the runtime entry point, DESIGN.md §2.11)",
 }
 for pid, c in sorted(CHECKS.items()):
     m["checks"].append({
